@@ -31,18 +31,20 @@ def is_trivial(line, mo):
     return mo.startswith("err") or mo.startswith("unsupported")
 
 
-def time_decorate(rng, xml, ns=None):
-    """Turn some uncalibrated integer types of a generated document into time types (XML level)."""
+def time_decorate(rng, xml, ns=None, pretty=False):
+    """Turn some uncalibrated integer types of a generated document into time types (XML level).
+    `ns` is the namespace URI of the document's elements ('' = no namespace)."""
     import lxml.etree as ET
     root = ET.fromstring(xml)
-    ns = ns or xmlgen.XTCE_NS
-    for el in list(root.iter(f"{{{ns}}}IntegerParameterType")):
-        enc = el.find(f"{{{ns}}}IntegerDataEncoding")
+    ns = xmlgen.XTCE_NS if ns is None else ns
+    q = (lambda t: f"{{{ns}}}{t}") if ns else (lambda t: t)
+    for el in list(root.iter(q("IntegerParameterType"))):
+        enc = el.find(q("IntegerDataEncoding"))
         if enc is None or len(enc) or rng.random() > 0.25:
             continue
         tag = rng.choice(["AbsoluteTimeParameterType", "RelativeTimeParameterType"])
-        new = ET.Element(f"{{{ns}}}{tag}"); new.set("name", el.get("name"))
-        e = ET.SubElement(new, f"{{{ns}}}Encoding")
+        new = ET.Element(q(tag)); new.set("name", el.get("name"))
+        e = ET.SubElement(new, q("Encoding"))
         if rng.random() < 0.7:
             e.set("units", rng.choice(["seconds", "ms"]))
         if rng.random() < 0.6:
@@ -51,13 +53,13 @@ def time_decorate(rng, xml, ns=None):
             e.set("offset", rng.choice(["0.25", "100.0", "-8.0"]))
         e.append(enc)
         if rng.random() < 0.5:
-            rt = ET.SubElement(new, f"{{{ns}}}ReferenceTime")
+            rt = ET.SubElement(new, q("ReferenceTime"))
             if rng.random() < 0.5:
-                ET.SubElement(rt, f"{{{ns}}}OffsetFrom").set("parameterRef", "SRC_SEQ_CTR")
+                ET.SubElement(rt, q("OffsetFrom")).set("parameterRef", "SRC_SEQ_CTR")
             if rng.random() < 0.7:
-                ET.SubElement(rt, f"{{{ns}}}Epoch").text = rng.choice(["TAI", "2000-01-01T12:00:00"])
+                ET.SubElement(rt, q("Epoch")).text = rng.choice(["TAI", "2000-01-01T12:00:00"])
         el.getparent().replace(el, new)
-    return ET.tostring(root, xml_declaration=True, encoding="utf-8")
+    return ET.tostring(root, xml_declaration=True, encoding="utf-8", pretty_print=pretty)
 
 
 # slopes and intercepts of length adjustments: the defaults of either side (0, 1, 8) and arbitrary values
